@@ -2,7 +2,7 @@ package main
 
 // Overlapping ObfuscateJSON calls.  `nest`: call i+1 runs COMPLETELY from inside the hasher of call i, at
 // its k-th hashed value (deterministic, one goroutine; when call i hashes fewer than k values, call i+1
-// runs right after it).  `conc`: the calls run on concurrent goroutines pinned to one P (GOMAXPROCS(1)),
+// runs right after it).  `conc`: the calls run on concurrent goroutines pinned to one P (the harness process runs with GOMAXPROCS(1)),
 // yielding at every hashed value.  The real code must give every call the answer it gives alone: a pooled
 // parser / arena handed back before the call has marshalled its output shows up here.
 
@@ -91,7 +91,7 @@ func execMulti(op string, w []string, o *proto.Out) string {
 		}
 		run(0)
 	} else {
-		prev := runtime.GOMAXPROCS(1)
+		// one P for the whole harness process (set once in main): goroutines share one sync.Pool slot
 		var wg sync.WaitGroup
 		start := make(chan struct{})
 		for _, c := range calls {
@@ -109,7 +109,6 @@ func execMulti(op string, w []string, o *proto.Out) string {
 		}
 		close(start)
 		wg.Wait()
-		runtime.GOMAXPROCS(prev)
 	}
 	toks := make([]string, n)
 	for i, c := range calls {
